@@ -498,7 +498,7 @@ func init() {
 	register(&Check{
 		Prop:   "C14",
 		Engine: "seq",
-		Rule:   "every operation sequence within the bound is executed in lock-step under every configuration of the set (adversarial caller: reused, poisoned key/value buffers); all transcripts (every return value / error class, Get of every key, ListKeys, Fold, iterators both ways, KeyNum, and the same after a final restart) must be identical; within equal (DataFileSize, sync strategy) also the full Stat and, for batch-free sequences, the data-file bytes after Close. plus an iterator lock-step level: every key set of >= 3 of 6 keys x direction x prefix x every iterator call sequence (Rewind/Seek/Next/one interleaved write) must give identical (Valid, Key, Value) transcripts under all 12 (index type, shard count) configurations. non-trivial = a universe key was both present and absent during the sequence / every iterator call sequence",
+		Rule:   "every operation sequence within the bound is executed in lock-step under every configuration of the set (adversarial caller: reused, poisoned key/value buffers); all transcripts (every return value / error class, Get of every key, ListKeys, Fold, iterators both ways, KeyNum, and the same after a final restart) must be identical; within equal (DataFileSize, sync strategy) also the full Stat and, for batch-free sequences, the data-file bytes after Close. plus an iterator lock-step level: every key set of >= 3 of 6 keys x direction x prefix x every iterator call sequence (Rewind/Seek/Next/one interleaved write) must give identical (Valid, Key, Value) transcripts under all 12 (index type, shard count) configurations. non-trivial = a universe key was both present and absent during the sequence / every iterator call sequence. Torn-tail level: sequences with restarts that find the newest data file short of its last 1 or 12 bytes (recovery truncates the file, later writes follow the cut), compared between the configurations that share a DataFileSize (what is lost depends on the file layout)",
 		Assumptions: []string{
 			"inputs are identical across configurations (fixed value lengths 3/39/210/0 bytes)",
 			"batch ids are time-based, so file bytes are compared for batch-free sequences only",
